@@ -21,7 +21,11 @@ import (
 const hookSrc = `// Package verifhook exists only in the verification build overlay.
 package verifhook
 
-import "sync"
+import (
+	"reflect"
+	"sync"
+	"unsafe"
+)
 
 // Yield is called immediately before every Lock/RLock in util/resolve.
 var Yield func(point string)
@@ -134,6 +138,71 @@ func Size(n int) int {
 		return LRUSize(n)
 	}
 	return n
+}
+
+// CondW / CondS are the simulator's own sync.Cond (see kernel.Sched.CondWait):
+// CondW reports false when no simulated phase is active.
+var (
+	CondW func(key uintptr, point string) bool
+	CondS func(key uintptr, broadcast bool)
+)
+
+// target returns what x.Wait() / x.Signal() is called on, given &x.
+func target(p any) any {
+	v := reflect.ValueOf(p).Elem()
+	switch v.Kind() {
+	case reflect.Ptr:
+		return v.Interface()
+	case reflect.Interface:
+		if !v.IsNil() {
+			return v.Elem().Interface()
+		}
+	}
+	return p
+}
+
+// WaitOn replaces the statement x.Wait(); p is &x. A *sync.Cond waits inside
+// the simulator; anything else (a WaitGroup, ...) is a blocking operation of
+// the code under test, bracketed as usual.
+func WaitOn(p any, point string) {
+	obj := target(p)
+	if c, ok := obj.(*sync.Cond); ok && CondW != nil {
+		U()
+		c.L.Unlock()
+		if CondW(uintptr(unsafe.Pointer(c)), point) {
+			Y(point)
+			c.L.Lock()
+			L()
+			return
+		}
+		// not in a simulated phase: the real thing
+		c.L.Lock()
+		L()
+	}
+	B(point)
+	obj.(interface{ Wait() }).Wait()
+	A()
+}
+
+// SignalOn replaces x.Signal() / x.Broadcast(); p is &x.
+func SignalOn(p any, broadcast bool) {
+	obj := target(p)
+	if c, ok := obj.(*sync.Cond); ok {
+		if CondS != nil {
+			CondS(uintptr(unsafe.Pointer(c)), broadcast)
+		}
+		if broadcast {
+			c.Broadcast()
+		} else {
+			c.Signal()
+		}
+		return
+	}
+	if broadcast {
+		obj.(interface{ Broadcast() }).Broadcast()
+	} else {
+		obj.(interface{ Signal() }).Signal()
+	}
 }
 
 // SelBegin / SelNext make a select statement with several cases
@@ -535,6 +604,46 @@ func Generate(repo, dir string) (string, *Report, error) {
 					dels = append(dels, [2]int{pos.Offset, end.Offset})
 					edits = append(edits, edit{pos.Offset, pre + "go func() {" + enter + " " + call + " }()"})
 					continue
+				}
+				// x.Wait(), x.Signal(), x.Broadcast() on an addressable x (an
+				// identifier or a chain of field selections): handed to the
+				// hook with &x, which waits inside the simulator if x turns
+				// out to be a *sync.Cond and brackets the real call otherwise
+				if es, ok := st.(*ast.ExprStmt); ok {
+					if call, ok := es.X.(*ast.CallExpr); ok && len(call.Args) == 0 {
+						if sel, ok := call.Fun.(*ast.SelectorExpr); ok && (sel.Sel.Name == "Wait" || sel.Sel.Name == "Signal" || sel.Sel.Name == "Broadcast") {
+							addressable := true
+							for x := sel.X; addressable; {
+								switch y := x.(type) {
+								case *ast.Ident:
+									x = nil
+								case *ast.SelectorExpr:
+									x = y.X
+									continue
+								default:
+									addressable = false
+								}
+								break
+							}
+							if addressable {
+								recv := string(src[fset.Position(sel.X.Pos()).Offset:fset.Position(sel.X.End()).Offset])
+								point := fmt.Sprintf("block:%s:%d", rel, pos.Line)
+								var text string
+								switch sel.Sel.Name {
+								case "Wait":
+									text = fmt.Sprintf("verifhook.WaitOn(&%s, %q)", recv, point)
+									rep.BlockSites = append(rep.BlockSites, point)
+								case "Signal":
+									text = fmt.Sprintf("verifhook.SignalOn(&%s, false)", recv)
+								default:
+									text = fmt.Sprintf("verifhook.SignalOn(&%s, true)", recv)
+								}
+								dels = append(dels, [2]int{pos.Offset, end.Offset})
+								edits = append(edits, edit{pos.Offset, text})
+								continue
+							}
+						}
+					}
 				}
 				// possibly blocking statements: <-ch, x := <-ch, ch <- v,
 				// select without default, x.Wait()
